@@ -32,9 +32,10 @@ def shapes_all_lengths(run, tier, nprng):
     cfgs = c01.stft_configs(tier)
     if tier == "quick":
         cfgs = [c for i, c in enumerate(cfgs) if i % 2 == 0]
+    cfgs = cfgs + c01.gapped_configs(tier)
     cases = []
     for (L, S, st) in cfgs:
-        for N in range(0, 3 * L + 4):
+        for N in range(0, 3 * max(L, S) + 4):
             cases.append({"L": L, "S": S, "st": stubs.spec_style(st), "N": N, "style": st})
     styles = [c.pop("style") for c in cases]
     rows = V.export_frames(cases)
